@@ -1,5 +1,6 @@
 import Haiway.Model.MiniPy
 import Haiway.Bridge.ScopeState
+import Haiway.Proofs.ScopeState
 /-! Bridge for `ScopeState.__init__` (C01: "a later instance of a type replaces an earlier one", the one step of the nesting
     chain that `Bridge/ScopeStateEndToEnd.lean` used to *assume* – `mk`), regenerated from /repo's `context/state.py`.
 
@@ -157,6 +158,20 @@ theorem closesChain_of_builds {p : Stmt} (h : InitBuilds p) : ClosesChain p := b
   have h1 := h (L.map (·.val)) w loc fld (by rw [h0, List.map_map]; rfl) hfz
   simp only [hL] at h1
   exact ⟨h1.1, h1.2.1, h1.2.2.1⟩
+
+/-- C01's "a later instance of a type replaces an earlier one", of the regenerated constructor: after `ScopeState(L)` the entry
+of `_state` under the class `t` is the **last** instance of `t` in `L` (none if `L` has none) -/
+def LastWins (p : Stmt) : Prop :=
+  ∀ (L : List Inst) (w : W) (loc fld : Nat → Val) (t : Nat), (∀ i ∈ L, w.tyOf i.val = i.ty) →
+    loc 0 = .list (L.map instVal) → w.frozen = [] →
+    ∃ kv, (runMethod ext p ({ loc := loc, fld := fld, world := w } : St W)).2.fld 0 = .dict kv ∧
+      assocGet kv (.cls t) = (Haiway.ScopeState.lastOf L t).map instVal
+
+theorem lastWins_of_builds {p : Stmt} (h : InitBuilds p) : LastWins p := by
+  intro L w loc fld t hty h0 hfz
+  have h1 := (closesChain_of_builds h L w loc fld hty h0 hfz).2.1
+  refine ⟨_, h1, ?_⟩
+  rw [Haiway.Bridge.ScopeState.assocGet_dictOf, Haiway.ScopeState.find_mk]
 
 macro "ssinit_eval" : tactic => `(tactic|
   (simp (config := { decide := true }) [exec, exec.execH, eval, builtin, ext, upd, dictOf, inst, assocSet_insert', *]))
